@@ -94,7 +94,69 @@ def validate_compression(ck):
     return True, len(lines), ""
 
 
+
+
+def validate_views(ck):
+    """Gen.Views (operator tables of ArrayView / SubFieldView as pinned) against the live classes: every operator method, on a
+    sub-field view and on a scaled view, with scalar and array operands, gives what the table's operator gives on the
+    materialised array"""
+    import operator
+    import numpy as np
+    import laspy
+    out = ck.driver(["vw tables"])
+    if not out:
+        return False, 0, "driver did not run"
+    tables = {}
+    for part in out[0].split(" "):
+        k, _, v = part.partition("=")
+        tables[k] = [tuple(e.split(":", 1)) for e in v.split(",") if e]
+    pyops = {"<": operator.lt, "<=": operator.le, ">": operator.gt, ">=": operator.ge, "==": operator.eq, "!=": operator.ne,
+             "+": operator.add, "-": operator.sub, "*": operator.mul, "/": operator.truediv, "//": operator.floordiv}
+    las = laspy.create(point_format=3)
+    las.header.scales = np.array([0.5, 0.25, 2.0])
+    las.header.offsets = np.array([10.0, -3.0, 0.0])
+    n = 9
+    las.points = laspy.ScaleAwarePointRecord.zeros(n, header=las.header)
+    las.points.array["X"] = np.arange(-4, 5, dtype="i4") * 1000
+    las.points.array["bit_fields"] = np.array([ck.rng.getrandbits(8) for _ in range(n)], dtype="u1")
+    cases = 0
+
+    def same(a, b):
+        a, b = np.asarray(a), np.asarray(b)
+        return a.shape == b.shape and bool(np.array_equal(a, b, equal_nan=True))
+
+    for vname in ("return_number", "x"):
+        view = las[vname]
+        plain = np.array(view)
+        for other in (2, 1.5 if vname == "x" else 3, np.arange(n) % 3 + 1):
+            for method, op in tables.get("ops", []):
+                if vname == "return_number" and method in ("__lt__", "__le__", "__gt__", "__ge__"):
+                    continue        # overridden by the sub-field view (table `sub`)
+                if vname == "x" and method in ("__lt__", "__le__", "__gt__", "__ge__", "__eq__", "__ne__"):
+                    continue        # overridden by the scaled view: comparisons on the integer grid (excluded by the property)
+                if op not in pyops:
+                    return False, cases, f"unknown operator {op!r} in the pinned table"
+                cases += 1
+                with np.errstate(all="ignore"):
+                    got, want = getattr(view, method)(other), pyops[op](plain, other)
+                if not same(got, want):
+                    return False, cases, f"{type(view).__name__}.{method}({other!r:.40}): code gives {np.asarray(got).tolist()[:4]}, pinned table says operator {op}: {np.asarray(want).tolist()[:4]}"
+        for method, name in tables.get("minmax", []):
+            cases += 1
+            if not same(getattr(type(view).__mro__[1], method)(view), getattr(plain, name)()):
+                return False, cases, f"ArrayView.{method} on {vname}: code differs from the materialised array's {name}()"
+    view = las["return_number"]
+    plain = np.array(view)
+    for method, name in tables.get("sub", []):
+        for c in (-1, 0, 1, 3, 7, 8, np.int64(2), np.arange(n) % 4):
+            cases += 1
+            got, want = getattr(view, method)(c), getattr(operator, name)(plain, c)
+            if not same(got, want):
+                return False, cases, f"SubFieldView.{method}({c!r:.30}): code gives {np.asarray(got).tolist()[:5]}, pinned table says {name}: {np.asarray(want).tolist()[:5]}"
+    return True, cases, ""
+
+
 # GE and Dims: the only properties that rest on them (C20; C07, C12) compare the pinned functions with the live code in their
 # own correspondence run - exhaustively for GE (all 65536 field values x every flag assignment), on every (version, format)
 # request for Dims - so no separate grid is needed: the fallback is accepted iff that correspondence holds.
-VALIDATORS = {"Reader": validate_reader, "Copc": validate_copc, "Compression": validate_compression, "GE": None, "Dims": None}
+VALIDATORS = {"Reader": validate_reader, "Copc": validate_copc, "Compression": validate_compression, "GE": None, "Dims": None, "Views": validate_views}
